@@ -36,7 +36,7 @@ CmdFor(nsam, pops) ==
           mig |-> IF pops[1] % 2 = 1 THEN <<<<"0", ".", "5">>>> ELSE <<>>,
           post |-> <<<<"-", "e", "j">>, <<"0", ".", "1">>, <<"2">>, <<"1">>>>, seeds |-> <<"4", "0", " ", "5", " ", "6">>, tbs |-> <<>>]
 PaChoices(nsam) == {<<>>, <<nsam>>} \cup {<<a, nsam - a>> : a \in 0..nsam} \cup (IF nsam >= 2 THEN {<<1>>, <<1, nsam - 2>>} ELSE {})
-OptChoices(nsam) == IF Full THEN PaChoices(nsam) \X SegChoices
+OptChoices(nsam) == IF Full THEN (PaChoices(nsam) \X SegChoices) \cup ({<<>>, <<1, nsam - 1>>} \X {2})
                     ELSE (PaChoices(nsam) \X {1}) \cup ({<<>>, <<1, nsam - 1>>} \X SegChoices)
 GivenIds(n) == [k \in 1..n |-> <<"x", " ", DigitSeq[k + 1]>>]
 
@@ -85,7 +85,7 @@ RunMs == /\ pc = "choose" /\ out.kind = "ms" /\ pc' = "file"
          /\ UNCHANGED res
 FromMsFile == /\ pc = "file" /\ out.kind = "ms" /\ pc' = "read"
               /\ LET p == MsParse(file) IN
-                 \E avg, mc \in BOOLEAN :
+                 \E avg \in BOOLEAN : \E mc \in {avg} :      \* (average, mask_corners, pop_ids) = all defaults or all non-default
                     /\ opt' = [opt EXCEPT !.avg = avg, !.mc = mc, !.ids = IF mc THEN <<>> ELSE GivenIds(Len(MsGroups(out, opt.pa)))]
                     /\ res' = MsReadParsed(p, opt')
               /\ UNCHANGED <<out, file>>
